@@ -1,6 +1,68 @@
-import MotoModel.Model.DiskCli
-import MotoModel.Spec.Dos
+/-
+  C02 — disk archive round trip (.sd and .fd): create, then list/extract, is lossless.
+  (first layer: the catalog size law, the chain written is the chain read)
+-/
+import MotoModel.Props.C05
+import MotoModel.Props.C07
 namespace Moto.C02
 open Moto Moto.Disk
-theorem placeholder : computeRequiredSlots 0 255 = (0, 255) := rfl
+
+/-- **C02 (exact size)**: the numbers `writeFile` records for a content of `n` bytes — blocks,
+    sectors used in the last block, bytes used in the last sector — decode to exactly `n` with the
+    reader's formula, for every `n` including 0. -/
+theorem recorded_size_is_exact (n : Nat) :
+    (8 * (reqBlocks n - 1) + lastSectorsOf n - 1) * 255 + lastBytesOf n = n := by
+  have := (size_law n).2.2.2.2.2.1
+  rw [Nat.mul_comm]; exact this
+
+theorem block_count (n : Nat) : reqBlocks n = (max 1 ((n + 254) / 255) + 7) / 8 := by
+  obtain ⟨h1, h2, h3, h4, h5, h6, h7⟩ := size_law n
+  by_cases hn : 0 < n
+  · have := h7 hn
+    omega
+  · have : n = 0 := by omega
+    subst this
+    simp [reqBlocks, layoutOf, computeRequiredSlots]
+
+/-- enough free blocks ⇒ the file's chain is read back block for block, and the reader computes
+    the exact size from it -/
+theorem chain_and_size_read_back (bat : List Nat) (hlen : bat.length = 160) (content : Bytes)
+    (hfit : reqBlocks content.length ≤ (chosen bat (reqBlocks content.length)).length)
+    (rec16 : Bytes) (hrec : rec16.getD 14 0 * 256 + rec16.getD 15 0 = lastBytesOf content.length) :
+    let ch := chosen bat (reqBlocks content.length)
+    let bat' := linkChain bat ch (lastSectorsOf content.length)
+    walk bat' (ch.getD 0 0) = .ok ch ∧ ch.length = reqBlocks content.length ∧ sizeInBytes bat' ⟨1, rec16, ch⟩ = content.length := by
+  intro ch bat'
+  obtain ⟨hb1, hu1, hu8, _, _, _, _⟩ := size_law content.length
+  have hwalk := C05.written_chain_reads_back bat hlen content.length hfit
+  have hlen' : ch.length = reqBlocks content.length := by
+    have : ch.length ≤ reqBlocks content.length := by
+      simp only [ch, chosen]; exact List.length_take_le _ _
+    have hfit' : reqBlocks content.length ≤ ch.length := hfit
+    omega
+  refine ⟨hwalk, hlen', ?_⟩
+  have hne : ch ≠ [] := by intro h; rw [h] at hlen'; simp at hlen'; omega
+  obtain ⟨last, hlast⟩ : ∃ last, ch.getLast? = some last := by
+    cases h : ch.getLast? with
+    | none => simp [List.getLast?_eq_none_iff] at h; exact absurd h hne
+    | some l => exact ⟨l, rfl⟩
+  have hnd : ch.Nodup := chosen_nodup bat _
+  have hlt : ∀ b ∈ ch, b < bat.length := fun b hb => (chosen_free bat _ b hb).1
+  have hl := linkChain_linked ch bat (lastSectorsOf content.length) hnd hlt
+  -- the status of the last block is the marker
+  have hs : bat'.getD last 0 = 0xC0 + lastSectorsOf content.length := by
+    have key : ∀ (c : List Nat) (b : List Nat), Linked b c (lastSectorsOf content.length) → ∀ l, c.getLast? = some l →
+        b.getD l 0 = 0xC0 + lastSectorsOf content.length := by
+      intro c
+      induction c with
+      | nil => intro b _ l h; simp at h
+      | cons x xs ih =>
+        intro b hlk l hl'
+        cases xs with
+        | nil => simp at hl'; subst hl'; exact hlk
+        | cons y ys => simp only [Linked] at hlk; exact ih b hlk.2 l (by simpa using hl')
+    exact key ch bat' hl last hlast
+  rw [C07.size_formula bat' rec16 ch last _ hu8 hlast hs, hrec, hlen']
+  exact recorded_size_is_exact content.length
+
 end Moto.C02
